@@ -42,7 +42,7 @@ CASE_TIMEOUT = {'quick': 240, 'thorough': 600}
 
 
 def n_cases(tier):
-    return 260 if tier == 'quick' else 4000
+    return 260 if tier == 'quick' else 8000
 
 
 def jd(x):
